@@ -102,10 +102,16 @@ PROPS = {
     "C04": {
         "harness": "c04",
         "theorems": ["DL.C04_table", "DL.table_rows_ok", "DL.table_names_sorted", "DL.conjName_eq", "DL.C04_selfconj", "DL.C04_unknown", "DL.C04_unknown_pdg",
-                     "DL.C04_daughters", "DL.C04_daughters_length", "DL.C04_daughters_count", "DL.C04_mode", "DL.C04_agree"],
-        "partial": ["the PDG-name table is carried by the exhaustive correspondence (all 1014 names), not decided in the kernel"],
+                     "DL.C04_daughters", "DL.C04_daughters_length", "DL.C04_daughters_count", "DL.C04_mode", "DL.C04_agree",
+                     "DL.C04_pdg_table", "DL.C04_pdg_wrapped_names", "DL.pdg2evt_keysDistinct", "DL.evt2pdg_keysDistinct", "DL.conjRow_eq_none_iff"],
+        "modules": ["DL.Props.C04Pdg"],
+        "partial": ["C04_pdg_table is decided over the regenerated PDG-name maps (1014 + 807 entries): for every PDG name the answer is wrapped "
+                    "exactly when the name has no conjugate row (208 names mapped to the placeholder 'unknown' and 38 listed names), and otherwise "
+                    "is a PDG name, an involution, and agrees with the EvtGen route; that the regenerated maps are the installed package's is "
+                    "the translator's job and is cross-checked by the exhaustive correspondence (all names, every run)"],
         "assumptions": ["the particle tables are the installed `particle` package's (environment), regenerated on every run"],
-        "gen_obligations": ["table_rows_ok and table_sorted_adj are decided by the kernel over the regenerated 806-row table"],
+        "gen_obligations": ["table_rows_ok and table_sorted_adj are decided by the kernel over the regenerated 806-row table",
+                            "gen_tableFacts (PDG-name maps: distinct keys, per-entry facts) is decided by the kernel over the regenerated maps"],
     },
     "C03": {
         "harness": "c03",
